@@ -378,7 +378,7 @@ def add_motifs(rng, g, behaviour=False):
     tn = [t for t, _ in g.terminals]
     for _ in range(rng.choice([1, 1, 2, 3])):
         m = rng.choice(['nullable_chain', 'nullable_chain', 'nullable_chain', 'unit_chain', 'opt_list', 'shared_prefix', 'shared_prefix', 'eps_alts',
-                        'prefix_loop', 'prefix_loop', 'late_merge', 'late_merge', 'wide_prefix', 'wide_prefix', 'dead_tail', 'unit_tail', 'concat_keys', 'twin_dots', 'twin_dots'])
+                        'prefix_loop', 'prefix_loop', 'late_merge', 'late_merge', 'wide_prefix', 'wide_prefix', 'dead_tail', 'unit_tail', 'concat_keys', 'twin_dots', 'twin_dots', 'context_family', 'context_family', 'self_embed'])
         new = []
         if m == 'nullable_chain':
             k = rng.randint(2, 5)
@@ -501,6 +501,66 @@ def add_motifs(rng, g, behaviour=False):
                 new.append(_mk('enum', o, [('Absent', ('empty',)), ('Present', _wrap(rng, [('T', rng.choice(tn))]))], behaviour))
             new.append(_mk('enum', dead, [], behaviour))
             head = ('N', top)
+        elif m == 'context_family':
+            # a family of rules with a common prefix (X -> c d ; Y -> c d e ; W -> c m) used behind several leading terminals in
+            # different combinations, some followed by a terminal: the same (rule, dot) sits in several states with different
+            # lookaheads and different neighbours, and the states of the family are neighbours in the sorted order
+            need = 9
+            while len(tn) < need:
+                t = 'Tk%d' % len(tn)
+                g.terminals.append((t, rng.choice(['u32', '()'])))
+                tn.append(t)
+            pool = list(tn)
+            rng.shuffle(pool)
+            c, d, e, mm = pool[:4]
+            leads = pool[4:4 + rng.randint(2, 4)]
+            trail = pool[4 + len(leads):]
+            fam = {}
+            for nmx, body in (('Fx', [c, d]), ('Fy', [c, d, e]), ('Fw', [c, mm])):
+                q = _fresh_nt(g, nmx)
+                g.nts.append(_mk('struct', q, [], behaviour))      # reserve
+                fam[q] = body
+            del g.nts[len(g.nts) - 3:]
+            top = _fresh_nt(g, 'Fam')
+            alts, seen = [], set()
+            for li, l in enumerate(leads):
+                members = rng.sample(list(fam), rng.randint(1, 3))
+                for q in members:
+                    tail = [('T', rng.choice(trail))] if trail and rng.random() < 0.4 else []
+                    key = (l, q, tuple(tail))
+                    if key in seen:
+                        continue
+                    seen.add(key)
+                    alts.append(('V%d%s' % (li, q), ('tuple', [(False, ('T', l)), (True, ('N', q))] + [(False, x) for x in tail])))
+            rng.shuffle(alts)
+            new.append(_mk('enum', top, alts, behaviour))
+            for q, body in fam.items():
+                new.append(_mk('struct', q, [(None, ('tuple', [(False, ('T', x)) for x in body]))], behaviour))
+            head = ('N', top)
+        elif m == 'self_embed':
+            # Unit -> t u next to Expr -> n | t Expr Opt u with Opt -> eps | c: after `t` the state keeps Unit -> t . u beside the
+            # self-embedding Expr -> t . Expr Opt u, and goto(that state, t) has a strict subset of its cores
+            while len(tn) < 4:
+                t = 'Tk%d' % len(tn)
+                g.terminals.append((t, 'u32'))
+                tn.append(t)
+            t, u, n_, c = rng.sample(tn, 4)
+            un = _fresh_nt(g, 'Unitv')
+            g.nts.append(_mk('struct', un, [], behaviour))
+            ex = _fresh_nt(g, 'Expx')
+            g.nts.append(_mk('struct', ex, [], behaviour))
+            op = _fresh_nt(g, 'Optc')
+            g.nts.append(_mk('struct', op, [], behaviour))
+            st = _fresh_nt(g, 'Stmx')
+            del g.nts[len(g.nts) - 3:]
+            defs = [_mk('enum', st, [('U', _wrap(rng, [('N', un)])), ('E', _wrap(rng, [('N', ex)]))], behaviour),
+                    _mk('struct', un, [(None, _wrap(rng, [('T', t), ('T', u)]))], behaviour),
+                    _mk('enum', ex, [('Num', _wrap(rng, [('T', n_)])), ('Paren', _wrap(rng, [('T', t), ('N', ex), ('N', op), ('T', u)]))], behaviour),
+                    _mk('enum', op, [('None', ('empty',)), ('Some', _wrap(rng, [('T', c)]))], behaviour)]
+            if rng.random() < 0.5:
+                defs[1], defs[2] = defs[2], defs[1]
+            new += defs
+            head = ('N', st)
         elif m == 'twin_dots':
             # X -> t R u | R ; R -> t v w ..: after `t` the state holds R -> t . v and (from X -> t . R u) R -> . t v — ONE rule
             # at TWO dot positions, before two different terminals, with different lookaheads
